@@ -64,7 +64,8 @@ struct K_ccg : ColvarF { int body()
 #include "collect_cvc_gradients.body.inc"
 };
 struct K_ufe : ColvarF {
-  void update_extended_Lagrangian() { k_update_extended_Lagrangian(); }
+  // the integrator sees the force accumulated so far (recorded), and leaves the coupling-spring force in f (a fresh opaque value)
+  void update_extended_Lagrangian() { g_node[20] = f.real_value.nid(); k_update_extended_Lagrangian(); double s_ = nondet_double(); f.real_value = cvm::real(s_); g_node[21] = f.real_value.id; }
   cvm::real body()
 #include "update_forces_energy.body.inc"
 };
